@@ -47,9 +47,9 @@ theorem pargs_step (G : GCtx) (n : Nat) (hPE : PE G n) (hPArgs : PArgs G n) : PA
   cases args with
   | nil =>
     rw [List.map_nil, evalList_nil]
-    exact ⟨rfl, mem, (Runs.refl ip stk mem st.world).cast (by simp [cgArgs]), MemLe.refl _ _ _⟩
+    exact ⟨rfl, mem, [], rfl, fun _ => rfl, (Runs.refl ip stk mem st.world).cast (by simp [cgArgs]), MemLe.refl _ _ _⟩
   | cons a as =>
-    simp only [Frag.okGArgs, Bool.and_eq_true] at hok
+    simp only [Frag.okEArgs, Bool.and_eq_true] at hok
     obtain ⟨hoka, hokas⟩ := hok
     have hone' := oneNonAtom_tail a as hone
     simp only [Frag.wsGArgs, Frag.varsGArgs, Frag.callsGArgs, Bool.and_eq_true, resolved_append, callsOK_append] at hws
@@ -93,18 +93,19 @@ theorem pargs_step (G : GCtx) (n : Nat) (hPE : PE G n) (hPArgs : PArgs G n) : PA
         cases r1 with
         | error c1 => exact h1.error_n _
         | ok vs =>
-          obtain ⟨hfr1, mem1, hrun1, hml1⟩ := h1
+          obtain ⟨hfr1, mem1, svs, hsv, hsv0, hrun1, hml1⟩ := h1
           have hrel1 : StRel G.mod A.T A.N A.σ G.lim A.mp scopes vm st1.scopes mem1 := by
             rw [hfr1]; exact hrel.memLe hml1.cells
           have hsp1 := hsp.world st1 hfr1 hrun1.inv
           rw [cgE_of_pure _ _ _ _ _ hpa] at hCA
-          obtain ⟨v, hv, hrunA⟩ := atom_runs G A hA a.2 st1 (ip + nI CS.1) (vs.map (⟨·, none⟩) ++ stk) mem1 CS.2
+          obtain ⟨v, hv, hrunA⟩ := atom_runs G A hA a.2 st1 (ip + nI CS.1) (svs ++ stk) mem1 CS.2
             scopes vm hat hresa' hTa' (by rw [hCA]; exact hplA) hrel1
           have hsc : st1.scopes = st.scopes := by rw [hfr1]
           rw [hsc, hva1] at hv
           cases hv
           rw [hCA] at hrunA
-          exact ⟨hfr1, mem1, (hrun1.trans (hrunA st1.world)).cast (by rw [nI_append]; omega), hml1⟩
+          exact ⟨hfr1, mem1, ⟨va, none⟩ :: svs, by simp [hsv], fun h => by rw [hsv0 h]; rfl,
+            (hrun1.trans (hrunA st1.world)).cast (by rw [nI_append]; omega), hml1⟩
     | false =>
       -- the only non-atom: the VM pushes the atoms after it first
       have hall := allAtoms_of_oneNonAtom a as hone hat
@@ -124,12 +125,14 @@ theorem pargs_step (G : GCtx) (n : Nat) (hPE : PE G n) (hPArgs : PArgs G n) : PA
         obtain ⟨hfr1, mem1, hT1, hml1⟩ := h1
         exact ⟨hfr1, mem1, Runs.throw (vs.map (⟨·, none⟩)) (hvs2 st.world) hT1, hml1⟩
       | ok va =>
-        obtain ⟨hfr1, mem1, hrun1, hml1⟩ := h1
+        obtain ⟨hfr1, mem1, ov1, hov1, hrun1, hml1⟩ := h1
         simp only []
         have hsc : st1.scopes = st.scopes := by rw [hfr1]
         rcases hvs1 st1 hsc n with h | h
         · rw [h]; trivial
         · rw [h]
-          exact ⟨hfr1, mem1, ((hvs2 st.world).trans hrun1).cast (by rw [nI_append]; omega), hml1⟩
+          exact ⟨hfr1, mem1, ⟨va, ov1⟩ :: vs.map (⟨·, none⟩), by simp [Function.comp_def],
+            fun h => by rw [hov1 h]; rfl,
+            ((hvs2 st.world).trans hrun1).cast (by rw [nI_append]; omega), hml1⟩
 
 end HmsProofs.Sim
